@@ -41,6 +41,23 @@ pub fn history_of(out: &ConcOut) -> Vec<HEnt> {
             }
         }
     }
+    // `clear` is judged per key as up to four removals that may or may not happen inside its
+    // interval (it rescans the next table from bin 0 whenever it meets a forwarding marker).  None
+    // of them is mandatory: no listed property says what a `clear` that overlaps other operations
+    // must remove, and the crate (like the Java original) lets entries of bins that another
+    // resizer has claimed but not yet moved survive it (DESIGN.md section 10, item 7)
+    if !out.recs.clears.is_empty() {
+        let mut ks: Vec<u32> = ents.iter().map(|e| e.key).collect();
+        ks.sort();
+        ks.dedup();
+        for (t, inv, resp) in &out.recs.clears {
+            for k in &ks {
+                for _ in 0..4 {
+                    ents.push(HEnt { thread: *t, inv: *inv, resp: *resp, key: *k, op: HOp::MaybeForceRemove });
+                }
+            }
+        }
+    }
     let mut keys: Vec<u32> = ents.iter().map(|e| e.key).collect();
     keys.sort();
     keys.dedup();
@@ -52,9 +69,7 @@ pub fn history_of(out: &ConcOut) -> Vec<HEnt> {
 }
 
 pub fn lin_judge(prog: &Prog, out: &ConcOut) -> Result<u64, String> {
-    if prog.has(|o| matches!(o, COp::Clear)) {
-        return Ok(0);
-    }
+    let _ = prog;
     let ents = history_of(out);
     lin::check_history(&ents, |k| out.init.get(&k).map(|e| e.1))
 }
@@ -225,6 +240,9 @@ pub const C01L: ConcCheck = ConcCheck { sub: "lin-long", mix: Mix::Long, max_thr
 
 pub const C01M: ConcCheck = ConcCheck { sub: "lin-long-mixed", mix: Mix::LongMixed, max_threads: 6, max_ops: 10, ..C01 };
 pub const C01H: ConcCheck = ConcCheck { sub: "lin-helpers", mix: Mix::Helpers, max_threads: 4, max_ops: 3, ..C01 };
+/// writers, iterations, `len` and `clear` (per-key operations racing a `clear` must still be
+/// explainable: every result names a value that was current, nothing is resurrected)
+pub const C01R: ConcCheck = ConcCheck { sub: "lin-clear", mix: Mix::Readers, max_threads: 3, max_ops: 3, ..C01 };
 pub const C01T: ConcCheck = ConcCheck { sub: "lin-treemove", mix: Mix::TreeMove, max_threads: 3, max_ops: 3, ..C01 };
 
 fn c01_shard(ctx: &Ctx, out: &mut ShardOut) {
@@ -236,6 +254,7 @@ fn c01_shard(ctx: &Ctx, out: &mut ShardOut) {
     C01M.run(ctx, &pool, 3, ctx.share(ctx.by_tier(160, 5_000)) as u32, &lb, out);
     C01H.run(ctx, &pool, 5, ctx.share(ctx.by_tier(160, 3_000)) as u32, &helpers_budget(ctx.tier, ctx.shard_seed(94)), out);
     C01T.run(ctx, &pool, 6, ctx.share(ctx.by_tier(200, 4_000)) as u32, &budget_for(ctx.tier, ctx.shard_seed(95)), out);
+    C01R.run(ctx, &pool, 7, ctx.share(ctx.by_tier(320, 5_000)) as u32, &budget_for(ctx.tier, ctx.shard_seed(89)), out);
     c01_set_run(ctx, &pool, out);
 }
 
@@ -308,6 +327,9 @@ fn c01_replay(sub: &str, case: &Value) -> Result<(), CaseFail> {
     }
     if sub == "lin-helpers" {
         return C01H.replay(&pool, case, &helpers_budget(Tier::Thorough, 1));
+    }
+    if sub == "lin-clear" {
+        return C01R.replay(&pool, case, &budget_for(Tier::Thorough, 1));
     }
     if sub == "lin-treemove" {
         return C01T.replay(&pool, case, &budget_for(Tier::Thorough, 1));
